@@ -21,7 +21,7 @@ MANIFEST = {
                  'counter-models by finite-scope grounding replayed on the real code; bounded stand-ins for the aggregate clauses',
 }
 UNITS = ['unit_matrix', 'unit_matrix_nosite', 'unit_jumps_matrix', 'unit_diffusivity', 'unit_partition']
-BOUNDED = ['bounded_matrix', 'bounded_bookkeeping']
+BOUNDED = ['bounded_matrix', 'bounded_bookkeeping', 'bounded_purity']
 META = {
     'clauses': {
         'C05.matrix': 'P: M[i,j] = Count(rows start=i, dest=j) for tables without NOSITE; with NOSITE rows the cells outside row/column n-1 (known finding C05-nosite-fold for the rest)',
@@ -414,3 +414,10 @@ def bounded_bookkeeping(tier, seed):
         if r['reproduced']:
             st.violation('bookkeeping', r['detail'], 'verif.props.c05:replay_bookkeeping', inp)
     return st.result()
+
+
+# generic purity stand-in (arguments unchanged, second call equal, fresh call equal) over this property's API calls
+from verif.native.purity import make_bounded as _make_purity  # noqa: E402
+from verif.props.purity_reg import REG as _PURITY_REG  # noqa: E402
+PURITY = _PURITY_REG['C05']
+bounded_purity = _make_purity('C05', PURITY)
